@@ -16,10 +16,10 @@ T = {
          'Every schedule (process order, per-pipe message hold-back at every poll, timer-before-delivery) with at most d deviations from the default, for a completely enumerated family of topologies x behaviours x subscription forms, executes the real filters; the oracle checks every MQ.recv result and process() input for one message id, complete topic set per synchronized source, one ancestor.',
          E1_NOTE, '4 C01'),
  'C02': ('E1-simnet', 'model_checking', E1_TECH,
-         'Order/duplication: all schedules with <= d deviations under arbitrary delays, plus a hard kill + restart of publisher, relay or consumer inserted at every scheduling point with several restart delays; content: every topic-set x payload-kind x subscription-spec combination through real sockets code, compared with a reference selection function.',
+         'Order/duplication: all schedules with <= d deviations under arbitrary delays, plus a hard kill + restart of publisher, relay or consumer inserted at every scheduling point with several restart delays; content: every topic-set x payload-kind x subscription-spec combination (remapped / swapped / hidden names, outputs_jpg None / False, frames holding raw pixels and a cached JPEG, sources that reuse image buffers and state dicts, consumers that annotate in place) through real sockets code, compared with a reference selection function.',
          E1_NOTE, '4 C02'),
  'C03': ('E1-simnet', 'model_checking', E1_TECH,
-         'All timely schedules (message delay < 100 ms, runnable filter runs before the clock advances) with <= d deviations of a family of chains, tees, rejoins and joins with every process() behaviour; per-filter process() input list must equal a functional reference model, first frame included.',
+         'All timely schedules (message delay < 100 ms, runnable filter runs before the clock advances) with <= d deviations of a family of chains, tees, rejoins and joins with every process() behaviour; per-filter process() input list must equal a functional reference model, first frame included (late subscriptions per consumer, branches slower than two poll intervals, frame logging on, deferred results evaluated only when sent).',
          E1_NOTE, '4 C03'),
  'C04': ('E1-simnet', 'model_checking', E1_TECH,
          'Every stall position (sole consumer, one of two, behind a relay, mixed with an ephemeral source, same-id replicas, worker on a balanced branch shared with a synchronized logger) x stall start index x stall length x speed combination, two consecutive pauses, slow-start producers; all timely schedules with <= d deviations in the first 1100-2200 ms; for every stall of the run counts the publishes of every upstream producer on the endpoint leading to the stalled consumer (<= 9, none later than 700 ms into it).',
@@ -31,13 +31,13 @@ T = {
          'One hard kill (requests in flight to the victim delivered to the next incarnation or lost with it) or graceful stop of every filter of chain / tee / rejoin / balanced pipelines, with and without ? listeners and required outputs, inserted at every scheduling point of the reference run (quick: every point where the victim is about to step) with restart delays 0 / 300 ms / CONN_TIMEOUT+200 ms / never, late kills with one further deviation, consumers silent for longer than the time-out, and fault-free runs of skipping / slow rejoins with one deviation: every live consumer must process a new frame within CONN_TIMEOUT + 5 poll intervals and keep doing so, a publisher waits for a missing required output; order and set-integrity oracles throughout.',
          E1_NOTE, '4 C06'),
  'C08': ('E1-simnet', 'model_checking', E1_TECH,
-         'Pipelines (chain-3, tee, rejoin) x position of the ending filter x ending (exit()/exception in init, setup, k-th process, send, recv, shutdown; stop event; exit_after as seconds, m:s string, @datetime with and without offset under LOG_UTC on/off; failures while the filter object is constructed) x propagate/obey policy pairs: all timely schedules with <= d deviations; per filter shutdown-once-iff-setup, sockets closed, stop event set, run() returns/raises; pipeline-wide the set of terminating filters equals the closure of the announcement over the connection graph.',
+         'Pipelines (chain-3, tee, rejoin) x position of the ending filter x ending (exit()/exception in init, setup, k-th process, send, recv, shutdown; stop event; exit_after as seconds, m:s string, @datetime with and without offset under LOG_UTC on/off; failures while the filter object is constructed) x propagate/obey policy pairs: all timely schedules with <= d deviations; sinks with a dedicated metrics endpoint, exits announced by a consumer the publisher no longer tracks; per filter shutdown-once-iff-setup, sockets closed, stop event set, run() returns/raises; pipeline-wide the set of terminating filters equals the closure of the announcement over the connection graph.',
          E1_NOTE, '4 C08'),
  'C18': ('E1-simnet', 'model_checking', 'stateless preemption-bounded exploration of the real Filter.run main thread and the real OpenFilterLineage heartbeat thread under a controlled scheduler (scheduler-aware threading in lineage.py), capturing every emitted event',
          'Every way a run can end (exit()/exception in init, setup, k-th process, shutdown; stop event; exit_after) x run length 0.4 / 0.7 / 1 / 1.8 / 2.5 heartbeat intervals, slow lineage backends and backends that refuse an event kind: all interleavings of the two threads with <= 2 (quick) / 4 (thorough) preemptions at Event/Lock/emit/poll/sleep operations; history must be START RUNNING* (COMPLETE|ABORT), one run id, COMPLETE iff run() returned normally.',
          'The OpenLineage client is a capturing fake; lineage.threading is replaced by mc/simthread.py; memory-level races between the two threads are explored at synchronisation operations and emit calls only.', '4 C18'),
  'C07': ('E1-simnet', 'model_checking', E1_TECH,
-         'Splitter with balanced outputs over 2-4 branches, workers of all speed combinations, balanced-sources joiner: all schedules with <= d deviations under arbitrary delays; each id on exactly one branch, rejoined stream duplicate-free, strictly increasing, one id per set.',
+         'Splitter with balanced outputs over 2-4 branches, workers of all speed combinations, balanced-sources joiner: all schedules with <= d deviations under arbitrary delays; each id on exactly one branch, rejoined stream duplicate-free, strictly increasing, one id per set; ? / ?? watchers on branches, branches without a worker, workers that exit, joiners with an output that skip frames (two deviations for the every-third-frame variant).',
          E1_NOTE, '4 C07'),
 }
 
@@ -58,10 +58,10 @@ T.update({
          'Every command line of 1-3 (quick) / 1-5 (thorough) filters over the per-filter --id / --sources / --outputs alphabets and --ipc on/off; unique ids, id sources resolved to an address exactly one filter binds with suffix preserved, auto-allocated port pairs disjoint, user-written values untouched.',
          E3_NOTE, '4 C12'),
  'C13': ('E3-enum', 'model_checking', 'explicit-state breadth-first search over RollLog operation sequences (write/read/read_block/seek/tell/refresh/reopen/external delete, controlled clock) with a list reference model',
-         'All operation sequences to depth 5 (quick) / 7 (thorough) over the alphabet, for all four modes and several file_size/total_size settings, on a real temp directory; reader output must be a duplicate-free order-preserving subsequence whose gaps are whole pruned/deleted files; size budget, newest-file and no-overwrite invariants after every write.',
+         'All operation sequences to depth 5 (quick) / 7 (thorough) over the alphabet, for all four modes and several file_size/total_size settings, on a real temp directory; reader output must be a duplicate-free order-preserving subsequence whose gaps are whole pruned/deleted files; size budget, newest-file and no-overwrite invariants after every write; writers with flush=False, empty records, mode-override reads, and a fixed family of histories with records of 2^13..2^21 bytes.',
          E3_NOTE, '4 C13'),
  'C14': ('E3-enum', 'fault_enumeration', 'crash-point enumeration: every file-system operation (and torn write prefix) of every head save of every bounded history, then restart and compare with the model of acknowledged saves',
-         'Histories of writes / reads / position saves to the stated depth; a crash before and after every open / write prefix / close / rename of every save and between reader operations; up to 2 (quick) / 3 (thorough) crash-restart cycles; restart must succeed at the previous or the new saved position, nothing on disk skipped, only the unsaved tail repeated.',
+         'Histories of writes / reads / position saves to the stated depth; a crash before and after every open / write prefix / close / rename of every save and between reader operations; up to 2 (quick) / 3 (thorough) crash-restart cycles; restart must succeed at the previous or the new saved position, nothing on disk skipped, only the unsaved tail repeated; plus every interleaving, at file-system-operation granularity, of two threads of one reader saving its position concurrently (saver vs. read / close / second save).',
          E3_NOTE, '4 C14'),
  'C15': ('E3-enum', 'exploration', 'bounded-exhaustive enumeration of credential-bearing configurations through real Filter construction/init with captured log records, frame metadata and lineage facets',
          'Filter classes x URI-valued fields x schemes x users x password specials x placements (string, comma list, list, tuple, nested dict, per-source record, extra key), before and after normalisation; the secret marker must occur in no captured sink while scheme and host stay readable.',
